@@ -453,6 +453,18 @@ func FixedSets(r *hk.Rand) []*Set {
 		b.claim(k, p, "add", "m", fmt.Sprintf("r%d", f))
 		push(b, "named-blobs-late-or-never", without(seq(1, 8), q))
 	}
+	{ // a second identity whose only blobs are a delete claim of somebody else's claim and a delete claim that
+		// waits for a target that never arrives: its signerkeyid: row exists beside no attribute-claim row
+		b := &setBuilder{}
+		k0 := b.key(0)
+		k1 := b.key(1)
+		p := b.pn(k0, n+24)
+		q := b.pn(k0, n+25) // withheld
+		c := b.claim(k0, p, "set", "i1", "s2")
+		b.del(k1, c)
+		b.del(k1, q)
+		push(b, "second-identity-only-deletes", without(seq(1, 7), q))
+	}
 	return sets
 }
 
@@ -657,6 +669,20 @@ func (s *Set) Shapes() []string {
 			if !in {
 				out["shape:claim-value-names-a-blob-that-never-arrives"] = true
 			}
+		}
+	}
+	attrSigner, anySigner := map[int]bool{}, map[int]bool{}
+	for _, sp := range s.Specs {
+		switch sp.Kind {
+		case "claim":
+			attrSigner[sp.Signer], anySigner[sp.Signer] = true, true
+		case "del":
+			anySigner[sp.Signer] = true
+		}
+	}
+	for k := range anySigner {
+		if !attrSigner[k] {
+			out["shape:signer-with-delete-claims-only"] = true
 		}
 	}
 	type pnSec struct {
@@ -1144,7 +1170,7 @@ func RunCase(r *hk.Run, s *Set, sc *Schedule, obsEvery bool) caseResult {
 // classifyObsDiff names the part of the query surface in which live and reloaded answers differ.
 func classifyObsDiff(live, reload string) string {
 	a, b := strings.Split(live, ";"), strings.Split(reload, ";")
-	names := []string{"meta", "deleted", "permanode", "bymodtime", "bycreated", "claimback"}
+	names := []string{"meta", "deleted", "permanode", "bymodtime", "bycreated", "claimback", "keyid"}
 	for i := range a {
 		if i < len(b) && i < len(names) && a[i] != b[i] {
 			return "c06-live-differs-from-reload-" + names[i]
